@@ -26,6 +26,35 @@ class Unregistered:
         return '<Unregistered>'
 
 
+class Marked:
+    """printed through predicate printers (registered below, in this order): instances may satisfy the first, the second or both"""
+    def __init__(self, tags):
+        self.tags = tags
+
+    def __repr__(self):
+        return '<Marked %s>' % (self.tags,)
+
+
+def _register_predicates():
+    import prettyprinter as pp
+    import importlib
+    P = importlib.import_module('prettyprinter.prettyprinter')
+    if any(getattr(pred, '_verif_marker', None) for pred, _ in P._PREDICATE_REGISTRY):
+        return
+
+    def first(v):
+        return isinstance(v, Marked) and 'a' in v.tags
+
+    def second(v):
+        return isinstance(v, Marked) and 'b' in v.tags
+    first._verif_marker = second._verif_marker = True
+    pp.register_pretty(predicate=first)(lambda v, ctx: pp.pretty_call(ctx, 'FirstPredicate', v.tags))
+    pp.register_pretty(predicate=second)(lambda v, ctx: pp.pretty_call(ctx, 'SecondPredicate', v.tags))
+
+
+_register_predicates()
+
+
 def corpus():
     dd = collections.defaultdict(list)
     dd['a'].append(1)
@@ -52,4 +81,6 @@ def corpus():
         # C struct sequences: field names are read off repr(value), which cannot be parsed when an element's repr is not an expression (F19)
         time.struct_time((2020, 1, 2, 3, 4, 5, 3, 2, -1)), time.struct_time((Unregistered(), 1, 2, 3, 4, 5, 3, 2, -1)),
         [time.struct_time((1999, 12, 31, 23, 59, 59, 4, 365, 0))], os.terminal_size((80, 24)), sys.float_info,
+        # predicate printers: the first-registered accepting predicate wins, whatever was printed before
+        Marked('a'), Marked('b'), Marked('ab'), [Marked('ba'), Marked('b')], Marked('c'),
     ]
